@@ -45,6 +45,13 @@ func vfGenC15(t *rapid.T) vfCaseC15 {
 			op := vfC15Op{K: rapid.SampledFrom([]string{"W", "W", "R", "R", "R", "S"}).Draw(t, "k"), H: rapid.IntRange(0, c.Handles-1).Draw(t, "h")}
 			if op.K != "S" {
 				op.N = rapid.IntRange(1, 8).Draw(t, "n")
+				if c.Kind == "os" {
+					// pread/pwrite on a regular file are not atomic with respect to each
+					// other for more than one byte (buffered reads do not take the inode
+					// lock): the proviso "the backing store's ReadAt/WriteAt are atomic"
+					// only holds for single bytes there
+					op.N = 1
+				}
 				// a narrow band of offsets so that operations overlap
 				op.Off = rapid.IntRange(0, minInt(c.Size-op.N, 12)).Draw(t, "off")
 			}
